@@ -46,6 +46,8 @@ FLAVOURS = {
     # tuned for the build machine's instruction set (F16C, AVX2, BMI...): code paths under #ifdef __F16C__ / __AVX2__ /
     # __SSE4_2__ exist only here, and the auto-vectoriser gets the wide instructions
     "native-O3": ("-O3 -march=native -g -DDEBUG=true", "-O2 -g", ""),
+    # the other compiler: different inlining, different code for atomics/builtins, different treatment of UB
+    "clang-O2": ("-O2 -g -DDEBUG=true", "-O2 -g -Wno-unknown-warning-option -Wno-gnu-zero-variadic-macro-arguments", ""),
     "ubsan-O2": ("-O2 -g -fsanitize=undefined -fno-sanitize=nonnull-attribute -fno-sanitize-recover=all -DDEBUG=true",
                  "-O2 -g -fsanitize=undefined -fno-sanitize=nonnull-attribute -fno-sanitize-recover=all", "-fsanitize=undefined"),
     # plain-O2 objects, linked with --wrap so any direct libc allocation call made by libcbor is seen
@@ -60,7 +62,7 @@ FLAVOURS = {
              "-fsanitize=memory"),
 }
 FLAVOURS["cov"] = ("-O0 -g --coverage -DDEBUG=true", "-O1 -g -DVH_COV=1", "--coverage")  # tools/coverage.py only
-FLAVOUR_CC = {"msan": "clang"}
+FLAVOUR_CC = {"msan": "clang", "clang-O2": "clang"}
 KEEP_OBJ = ("cov",)  # gcov needs the .gcno files next to the objects
 
 STRIP_PREFIXES = ("-O", "-flto", "-fno-fat-lto-objects", "-g", "-fsanitize", "-fno-sanitize", "-DNDEBUG", "-DDEBUG")
